@@ -393,7 +393,7 @@ ports = st.sampled_from([0, 22, 8080, 65535])
 
 
 def run(ctx):
-    ctx.set_budget(75, 780)
+    ctx.set_budget(85, 780)
     ctx.assume("the puppet server answers the client's own requests (x11-req, tcpip-forward, cancel) as drawn; well-formed payloads for known request/open names")
 
     class Machine(RuleBasedStateMachine):
@@ -469,7 +469,19 @@ def run(ctx):
             finally:
                 s.close()
 
-    ctx.explore_machine(Machine, ctx.scale(100, 1000), steps=30)
+    try:
+        ctx.explore_machine(Machine, ctx.scale(100, 1000), steps=30)
+    except Exception as e:
+        # Once the safety-net budget is exhausted the machine turns into a no-op, which hypothesis reports as
+        # flaky data generation when it happens while a failing history is being shrunk/replayed. That says
+        # nothing about paramiko: keep the (unshrunk) failure if there is one, else the run is inconclusive.
+        import hypothesis.errors as HE
+
+        if not (ctx.budget_hit and isinstance(e, HE.Flaky)):
+            raise
+        ctx.inconc("budget-hit-while-shrinking")
+        if ctx._last_fail is not None and ctx._last_fail[0] not in ctx.unknown and ctx._last_fail[0] not in ctx.known_hits:
+            ctx._record_unknown(*ctx._last_fail)
 
 
 def replay(ctx, case):
